@@ -165,14 +165,50 @@ def interface_monitor(ctx, th, hw, pc, depth, undecided_if_clean=False):
     ctx.bmc("interface_monitor.responses_matched_with_requests", hw, z3.Or(*bad), assume=A, undecided_if_clean=undecided_if_clean)
 
 
+def zipper_interface_monitor(ctx, th, hw):
+    m = th.m
+    wa, wr, rd = m["write_args"], m["write_results"], m["read"]
+    CAP = 3
+    na, nr = hw.ghost("mon_na", NW), hw.ghost("mon_nr", NW)
+    ga = [hw.ghost(f"mon_a{i}", 2) for i in range(CAP)]
+    gr = [hw.ghost(f"mon_r{i}", 2) for i in range(CAP)]
+    pop = rd.run
+    # a result that arrives while none is pending and read runs is forwarded, not queued
+    fwd = z3.And(pop, nr == 0, wr.run)
+    na1 = na + N(wa.run) - N(pop)
+    nr1 = nr + N(z3.And(wr.run, z3.Not(fwd))) - N(z3.And(pop, z3.Not(fwd)))
+    hw.set_ghost_next(na, na1)
+    hw.set_ghost_next(nr, nr1)
+    for i in range(CAP):
+        sh_a = z3.If(pop, ga[i + 1] if i + 1 < CAP else ga[i], ga[i])
+        idx_a = na - N(pop)
+        hw.set_ghost_next(ga[i], z3.If(z3.And(wa.run, idx_a == i), wa.arg("a"), sh_a))
+        popr = z3.And(pop, z3.Not(fwd))
+        sh_r = z3.If(popr, gr[i + 1] if i + 1 < CAP else gr[i], gr[i])
+        idx_r = nr - N(popr)
+        hw.set_ghost_next(gr[i], z3.If(z3.And(wr.run, z3.Not(fwd), idx_r == i), wr.arg("r"), sh_r))
+    ctx.use(hw)
+    exp_res = z3.If(nr != 0, gr[0], wr.arg("r"))
+    bad = [z3.And(rd.run, z3.Or(na == 0, z3.And(nr == 0, z3.Not(wr.run)))),                      # read without an argument / a result
+           z3.And(rd.run, na != 0, z3.Or(rd.res("args") != ga[0], rd.res("results") != exp_res)),  # k-th argument with k-th result
+           z3.And(rd.en, z3.Not(rd.done), na != 0, nr != 0)]                                       # a pending pair is never lost
+    A = [z3.Implies(wa.run, z3.ULT(na, N(CAP))), z3.Implies(wr.run, z3.ULT(nr, N(CAP)))]
+    ctx.bmc("interface_monitor.kth_argument_paired_with_kth_result", hw, z3.Or(*bad), assume=z3.And(*A), undecided_if_clean=True)
+
+
 def run_zipper(cfg, ctx):
     dut = ArgumentsToResultsZipper([("a", 2)], [("r", 2)])
     th = TH(dut, {"write_args": dut.write_args, "write_results": dut.write_results, "read": dut.read, "peek_arg": dut.peek_arg},
             capture=(ArgumentsToResultsZipper, BasicFifo, CircularAllocator, Forwarder))
     hw = th.hw
     loc = th.locals_of(dut)
-    qa = BasicFifoRep(hw, hw.rec, loc["fifo"])
-    qr = ForwarderRep(hw, hw.rec, loc["forwarder"])
+    try:
+        qa = BasicFifoRep(hw, hw.rec, loc["fifo"])
+        qr = ForwarderRep(hw, hw.rec, loc["forwarder"])
+    except KeyError:
+        # the representation this contract names (inner BasicFifo + Forwarder) is gone: representation-independent bounded
+        # search from reset against ghost queues of arguments and results; a trace is a violation, none is *undecided*
+        return zipper_interface_monitor(ctx, th, hw)
     m = th.m
     wa, wr, rd, pk = m["write_args"], m["write_results"], m["read"], m["peek_arg"]
     g_wa, g_wr, g_rd = hw.ghost("n_args", NW), hw.ghost("n_results", NW), hw.ghost("n_reads", NW)
